@@ -236,8 +236,22 @@ def snapshot(a):
         tuple(map(str, nodes.dims)), tuple(nodes.shape),
         tuple((str(k), tuple(np.asarray(v.values).reshape(-1).tolist())) for k, v in sorted(nodes.coords.items(), key=lambda kv: str(kv[0]))),
         tuple(id(x) for x in nodes.data.reshape(-1)) if nodes.shape != () else (id(nodes.data.item()),),
+        graph_key(a),
         id(nodes),
     )
+
+
+def graph_key(a):
+    """every node under the action: name -> (callable, static arguments by value, inputs, outputs)"""
+    res = []
+    for n in a.graph().nodes():
+        try:
+            func, args, kwargs = n.payload
+            pk = (getattr(func, "__name__", None) or repr(func), freeze_static(list(args)), freeze_static(dict(kwargs)))
+        except Exception:
+            pk = repr(n.payload)
+        res.append((n.name, repr(pk), tuple(sorted((k, s.parent.name, s.name) for k, s in n.inputs.items())), tuple(n.outputs)))
+    return tuple(sorted(res))
 
 
 def operand_ops():
@@ -247,6 +261,10 @@ def operand_ops():
         for bs in (0, 2):
             for keep in (False, True):
                 ops.append((f"{name}(x,bs={bs},keep={keep})", (3, 2), lambda a, o, name=name, bs=bs, keep=keep: getattr(a, name)(dim="x", batch_size=bs, keep_dim=keep)))
+    for ax in (1, -1):
+        ops.append((f"stack(x,axis={ax})", (3, 2), lambda a, o, ax=ax: a.stack("x", axis=ax)))
+    for name in list(fr.NPRED)[:2]:
+        ops.append((f"{name}(x,backend_kwargs)", (3, 2), lambda a, o, name=name: getattr(a, name)(dim="x", backend_kwargs={"keepdims": True})))
     for keep in (False, True):
         ops.append((f"stack(x,keep={keep})", (3, 2), lambda a, o, keep=keep: a.stack("x", keep_dim=keep)))
         ops.append((f"stack(size-1 dim,keep={keep})", (1, 2), lambda a, o, keep=keep: a.stack("x", keep_dim=keep)))
@@ -287,17 +305,24 @@ def operands_part(ctx, out):
             else:
                 dims, labels, oshape = fr.other_spec(other_kind, r0, None)
             o = fr.source_impl(1, oshape, (2,), dims, labels)
-            earlier = a.map(g)  # an action derived earlier from the receiver must not change either
-            before = [snapshot(x) for x in (a, o, earlier)]
+            # actions derived earlier from the receiver must not change either: one application of every operation
+            earlier = []
+            for _l2, shape2, fn2 in operand_ops():
+                if shape2 == shape and not _l2.endswith("(action)") and _l2 not in ("broadcast", "join(existing dim)"):
+                    try:
+                        earlier.append(fn2(a, o))
+                    except Exception:
+                        pass
+            before = [snapshot(x) for x in (a, o, *earlier)]
             try:
                 res = fn(a, o)
             except Exception as e:
                 out.append(({"monitor": "fluent_raised", "cause": f"{label.split('(')[0]}: {type(e).__name__}"}, f"{rp}: {e!r}"[:300], rp))
                 continue
-            after = [snapshot(x) for x in (a, o, earlier)]
-            for who, b, af in zip(("receiver", "operand", "earlier action"), before, after):
-                if b[:4] != af[:4]:
-                    what = "dimensions" if b[0] != af[0] or b[1] != af[1] else ("coordinates" if b[2] != af[2] else "nodes")
+            after = [snapshot(x) for x in (a, o, *earlier)]
+            for who, b, af in zip(["receiver", "operand"] + ["earlier action"] * len(earlier), before, after):
+                if b[:5] != af[:5]:
+                    what = "dimensions" if b[0] != af[0] or b[1] != af[1] else ("coordinates" if b[2] != af[2] else ("nodes" if b[3] != af[3] else "payloads/names of existing nodes"))
                     out.append(({"monitor": "operand_mutated", "cause": f"{'binary operation between actions' if label.endswith('(action)') else label.split('(')[0]}{'(size-1 dim)' if 'size-1' in label else ''}: {what} of the {who} changed"},
                                 f"{rp}: {b[:3]} -> {af[:3]}"[:500], rp))
     return n, n
